@@ -9,7 +9,7 @@ use crate::gc::{Gc, Guard};
 use crate::prelude::{math, *};
 use crate::value::{
     BytecodeFunction, CheapClone, ExoticObject, Guarded, JsFunction, JsObject, JsString, JsValue,
-    Property, PropertyKey,
+    Property, PropertyKey, to_int32, to_uint32,
 };
 
 use super::Interpreter;
@@ -2204,43 +2204,43 @@ impl BytecodeVM {
             // Bitwise Operations
             // ═══════════════════════════════════════════════════════════════════════════
             Op::BitAnd { dst, left, right } => {
-                let left_val = self.get_reg(left).to_number() as i32;
-                let right_val = self.get_reg(right).to_number() as i32;
+                let left_val = to_int32(self.get_reg(left).to_number());
+                let right_val = to_int32(self.get_reg(right).to_number());
                 self.set_reg(dst, JsValue::Number((left_val & right_val) as f64));
                 Ok(OpResult::Continue)
             }
 
             Op::BitOr { dst, left, right } => {
-                let left_val = self.get_reg(left).to_number() as i32;
-                let right_val = self.get_reg(right).to_number() as i32;
+                let left_val = to_int32(self.get_reg(left).to_number());
+                let right_val = to_int32(self.get_reg(right).to_number());
                 self.set_reg(dst, JsValue::Number((left_val | right_val) as f64));
                 Ok(OpResult::Continue)
             }
 
             Op::BitXor { dst, left, right } => {
-                let left_val = self.get_reg(left).to_number() as i32;
-                let right_val = self.get_reg(right).to_number() as i32;
+                let left_val = to_int32(self.get_reg(left).to_number());
+                let right_val = to_int32(self.get_reg(right).to_number());
                 self.set_reg(dst, JsValue::Number((left_val ^ right_val) as f64));
                 Ok(OpResult::Continue)
             }
 
             Op::LShift { dst, left, right } => {
-                let left_val = self.get_reg(left).to_number() as i32;
-                let right_val = (self.get_reg(right).to_number() as u32) & 0x1F;
+                let left_val = to_int32(self.get_reg(left).to_number());
+                let right_val = to_uint32(self.get_reg(right).to_number()) & 0x1F;
                 self.set_reg(dst, JsValue::Number((left_val << right_val) as f64));
                 Ok(OpResult::Continue)
             }
 
             Op::RShift { dst, left, right } => {
-                let left_val = self.get_reg(left).to_number() as i32;
-                let right_val = (self.get_reg(right).to_number() as u32) & 0x1F;
+                let left_val = to_int32(self.get_reg(left).to_number());
+                let right_val = to_uint32(self.get_reg(right).to_number()) & 0x1F;
                 self.set_reg(dst, JsValue::Number((left_val >> right_val) as f64));
                 Ok(OpResult::Continue)
             }
 
             Op::URShift { dst, left, right } => {
-                let left_val = (self.get_reg(left).to_number() as i32) as u32;
-                let right_val = ((self.get_reg(right).to_number() as i32) as u32) & 0x1F;
+                let left_val = to_uint32(self.get_reg(left).to_number());
+                let right_val = to_uint32(self.get_reg(right).to_number()) & 0x1F;
                 self.set_reg(dst, JsValue::Number((left_val >> right_val) as f64));
                 Ok(OpResult::Continue)
             }
@@ -2373,7 +2373,7 @@ impl BytecodeVM {
             }
 
             Op::BitNot { dst, src } => {
-                let val = self.get_reg(src).to_number() as i32;
+                let val = to_int32(self.get_reg(src).to_number());
                 self.set_reg(dst, JsValue::Number((!val) as f64));
                 Ok(OpResult::Continue)
             }
